@@ -533,6 +533,11 @@ def gen_program(st, flavour, tier):
         rpre = random.Random(h64(st.seed, "prelude"))
         if rpre.random() < 0.2:
             case["prelude"] = sorted(rpre.sample(range(n), rpre.randint(1, n - 1)))
+        if flavour == "C01" and rpre.random() < 0.08:
+            # two caller threads of one process ask for dependency graphs with overlapping closures at the same time
+            # (SimPool decides the interleaving inside dr.py); each must get the graph a lone caller gets
+            case["conc_graph"] = {"targets": [rpre.randrange(n), rpre.randrange(n)], "seed": rpre.getrandbits(32),
+                                  "p": rpre.choice([0.1, 0.3, 0.5]), "opcode": rpre.random() < 0.4}
     for o in range(rk.choice([0, 1, 2, 3]) if fl["observers"] else 0):
         case["observers"].append({"name": "o%d" % o, "h": rk.getrandbits(40),
                                   "on": rk.choice(["all", "all", "rule", "datasource", "parser", "plugin"]),
@@ -1436,6 +1441,66 @@ class Run(object):
     pass
 
 
+def concurrent_graph_callers(world, case):
+    """Two SimPool tasks call dr.get_dependency_graph() for two targets at once.  Reference: what a lone caller gets
+    (asked first; one more registration afterwards, which changes no existing graph, lets an implementation that
+    remembers graphs start from scratch).  Demanded (C01): in the order the engine derives from the graph a concurrent
+    caller got, no component stands before a declared dependency that takes part."""
+    cg = case["conc_graph"]
+    tg = [world.objs[i] for i in cg["targets"] if i < len(world.objs) and world.objs[i] is not None]
+    if len(tg) < 2:
+        return []
+    ref = [dict((k, set(v)) for k, v in dr.get_dependency_graph(t).items()) for t in tg]
+
+    class _Late(object):
+        __name__ = "conc_graph_bystander"
+        __module__ = MODNAME
+        __qualname__ = "conc_graph_bystander"
+
+        def __call__(self, *a):
+            return None
+
+        def __hash__(self):
+            return 7
+    plugins.datasource()(_Late())
+    pool = SimPool(random.Random(cg["seed"]), max_workers=2, policy={"kind": "walk", "p": cg["p"], "opcode": cg.get("opcode")},
+                   traced_files=TRACED_FILES, opcode_files=((dr.__file__,) if cg.get("opcode") else ()), max_steps=20000)
+    out = []
+    try:
+        futs = [pool.submit(dr.get_dependency_graph, t) for t in tg]
+        got = []
+        for f in futs:
+            try:
+                got.append(f.result())
+            except (HarnessError, SimDeadlock):
+                raise
+            except Exception as e:
+                got.append(e)
+    finally:
+        pool.shutdown()
+    world.fired("concurrent_graph_callers")
+    world.conc_switches = len(pool.switches)
+    for t, r0, g in zip(tg, ref, got):
+        if isinstance(g, Exception):
+            out.append(V("C01.graph", "concurrent-caller:raised:%s" % type(g).__name__,
+                         "get_dependency_graph(%s) raised %r while another thread asked for %s" % (cname(t), g, [cname(x) for x in tg])))
+            continue
+        try:
+            order = list(dr.run_order(dict((k, set(v)) for k, v in g.items())))
+        except Exception as e:
+            out.append(V("C01.graph", "concurrent-caller:unorderable", "graph of %s: run_order raised %r" % (cname(t), e)))
+            continue
+        pos = dict((c, k) for k, c in enumerate(order))
+        missing_keys = [cname(k) for k in r0 if k not in g]
+        bad = [(cname(c), cname(d)) for c, deps in r0.items() for d in deps if c in pos and d in pos and d in r0 and pos[d] > pos[c]]
+        if missing_keys or bad:
+            out.append(V("C01.graph", "concurrent-caller:attempted-before-dependency" if bad else "concurrent-caller:components-lost",
+                         "graph of %s obtained while another thread built the graph of %s: %s" % (
+                             cname(t), [cname(x) for x in tg if x is not t],
+                             ("order puts %s before its declared dependency %s" % bad[0]) if bad else ("components missing: %s" % missing_keys[:4]))))
+    return out
+
+
 def execute_once(case, driver):
     """Build the program, run the real engine under ``driver``, gather observations."""
     world = World(case)
@@ -1444,6 +1509,7 @@ def execute_once(case, driver):
             world.make_observers()
             world.build()
             graph = world.graph()
+            conc_viols = concurrent_graph_callers(world, case) if case.get("conc_graph") else []
             if case.get("prelude"):
                 sub = dict((world.objs[i], dr.get_dependencies(world.objs[i])) for i in case["prelude"]
                            if i < len(world.objs) and world.objs[i] in graph)
@@ -1457,6 +1523,7 @@ def execute_once(case, driver):
                     graph = world.graph()
             r = Run()
             r.world = world
+            r.conc_viols = conc_viols
             r.graph_names = sorted(cname(k) for k in graph)
             # the real ordering function, checked on its own output
             try:
@@ -1512,6 +1579,7 @@ def oracle_c01(case, driver, r):
     if r.escaped is not None:
         out.append(V("C01.escape", "escape:%s" % type(r.escaped).__name__, "driver %s raised %r" % (driver["kind"], r.escaped)))
         return out
+    out.extend(getattr(r, "conc_viols", None) or [])
     if getattr(r, "pending_at_return", 0):
         out.append(V("C01.completion", "run_all-returned-before-its-sub-graphs-finished",
                      "%d pool task(s) were still running when run_all returned" % r.pending_at_return))
